@@ -1,0 +1,8 @@
+//go:build verif
+
+package coregex
+
+import "github.com/coregx/coregex/meta"
+
+// VerifEngine exposes the underlying meta engine (build tag "verif" only).
+func (r *Regex) VerifEngine() *meta.Engine { return r.engine }
